@@ -1,8 +1,10 @@
 (* Properties/C14.v — Hessenberg reduction is an orthogonal similarity to upper
    Hessenberg form.  Statements only; every proof is `exact` of a lemma of
-   Proofs/Hessen.v.  All statements are about the R instance of the model
-   (exact arithmetic, sqrt of Reals); rounding is measured by the
-   correspondence check and the oracle, not proved.
+   Proofs/Hessen.v.  All statements down to c14_eigenpairs are about the R instance
+   of the model (exact arithmetic, sqrt of Reals); the rounding of the whole
+   reduction is measured by the correspondence check and the oracle, not proved.
+   The last block (binary64, Proofs/HessenFloat.v) proves the rounding error of ONE
+   reflector application as the update loops of hess_step perform it.
 
    Vocabulary (Proofs/HessenReflector.v, Proofs/HessenStep.v, Proofs/Hessen.v), all pointwise:
      Rsum f n        = f 0 + ... + f (n-1)                (recursive finite sum)
@@ -188,3 +190,200 @@ Proof.
   exists H, Q. split; [exact E|].
   destruct (Proofs.Hessen.c14_main 3 _ H Q E) as (_ & _ & Hz). apply Hz; lia.
 Qed.
+
+(* ---------------------------------------------------------------------------------------------
+   Floating point (binary64 instance, Coq primitive floats = Rust f64; bridge: Flocq's
+   [B2R (Prim2B x)]; eps = 2^-53; proofs in Proofs/HessenFloat.v): the rounding error of ONE
+   application of a reflector I - tau v v^T, the building block of the backward-error analysis of
+   Householder methods (Higham, Accuracy and Stability, Lemma 19.2).
+     facc v x m           = ((n0 + v_0*x_0) + v_1*x_1) + ... + v_(m-1)*x_(m-1), n0 = +0.0 (Proofs/Arr2DFloat.v):
+                            the dot product as hh_dot_col / hh_dot_row accumulate it
+     refl_upd tau v x m i = x_i - ((tau * v_i) * facc v x m), all operations in binary64: the update
+                            `a[..] -= tau * v[i] * dot` with the association of the code
+     okmul a b            = a*b is finite and its exact value is zero or >= 2^-1022 in magnitude
+                            (Proofs/PolyFloat.v; checkable by computation, okmul_by_leb)
+   Exponent m + 3: m for the dot product (one rounding per product, one per addition except the first,
+   +0.0 + v_0 x_0, which is exact), one for tau*v_i, one for (tau v_i)*dot, one for the subtraction.
+   COVERED: one reflector application with GIVEN v and tau — the abstract expression
+   (c14_reflector_apply_float_error) and, entry by entry, the three update loops of hess_step: the left
+   application to columns k..n-1 (c14_left_apply_float_error: hh_left, rows k+1..k+m) and the right
+   application to rows 0..n-1 (c14_right_apply_float_error: hh_right, columns k+1..k+m; hess_step uses it
+   for h and for the accumulation of q); each entry is compared with the exact update of the float
+   matrix BEFORE that loop.
+   NOT COVERED (stays measured by the oracle, n*eps*||A||): the construction of v and tau (hh_sqnorm, the
+   square root, hh_u1, hh_v, hh_tau: how far I - tau v v^T is from orthogonal), and the composition of
+   the n-2 steps into ||Q^ H^ Q^T - A|| <= c n^2 eps ||A||.
+   --------------------------------------------------------------------------------------------- *)
+From Coq Require Import Floats.
+From Flocq Require Import Core BinarySingleNaN PrimFloat.
+From SV Require Import Proofs.Stats Proofs.StatsFloat Proofs.Arr2DFloat Proofs.PolyFloat Proofs.HessenFloat.
+
+(* the vocabulary means what the comment says *)
+Example c14_float_vocabulary : forall (tau : PrimFloat.float) (v x : nat -> PrimFloat.float) (i : nat),
+  facc v x 2 = PrimFloat.add (PrimFloat.add PrimFloat.zero (PrimFloat.mul (v 0%nat) (x 0%nat)))
+                             (PrimFloat.mul (v 1%nat) (x 1%nat)) /\
+  refl_upd tau v x 2 i = PrimFloat.sub (x i) (PrimFloat.mul (PrimFloat.mul tau (v i)) (facc v x 2)).
+Proof. intros. split; reflexivity. Qed.
+
+Theorem c14_reflector_apply_float_error :
+  forall (tau : PrimFloat.float) (v x : nat -> PrimFloat.float) (m i : nat),
+  (forall t, (t < m)%nat -> okmul (v t) (x t)) ->
+  (forall t, (t <= m)%nat -> is_finite (Prim2B (facc v x t)) = true) ->
+  okmul tau (v i) ->
+  okmul (PrimFloat.mul tau (v i)) (facc v x m) ->
+  is_finite (Prim2B (x i)) = true ->
+  is_finite (Prim2B (refl_upd tau v x m i)) = true ->
+  Rabs (B2R (Prim2B (refl_upd tau v x m i))
+        - (B2R (Prim2B (x i))
+           - B2R (Prim2B tau) * B2R (Prim2B (v i))
+             * Rsum (map (fun t => B2R (Prim2B (v t)) * B2R (Prim2B (x t))) (seq 0 m))))
+  <= ((1 + bpow radix2 (-53)) ^ (m + 3) - 1)
+     * (Rabs (B2R (Prim2B (x i)))
+        + Rabs (B2R (Prim2B tau)) * Rabs (B2R (Prim2B (v i)))
+          * Rsum (map (fun t => Rabs (B2R (Prim2B (v t)) * B2R (Prim2B (x t)))) (seq 0 m))).
+Proof. exact Proofs.HessenFloat.reflector_apply_float_error. Qed.
+Check c14_reflector_apply_float_error :
+  forall (tau : PrimFloat.float) (v x : nat -> PrimFloat.float) (m i : nat),
+  (forall t, (t < m)%nat -> okmul (v t) (x t)) ->
+  (forall t, (t <= m)%nat -> is_finite (Prim2B (facc v x t)) = true) ->
+  okmul tau (v i) ->
+  okmul (PrimFloat.mul tau (v i)) (facc v x m) ->
+  is_finite (Prim2B (x i)) = true ->
+  is_finite (Prim2B (refl_upd tau v x m i)) = true ->
+  Rabs (B2R (Prim2B (refl_upd tau v x m i))
+        - (B2R (Prim2B (x i))
+           - B2R (Prim2B tau) * B2R (Prim2B (v i))
+             * Rsum (map (fun t => B2R (Prim2B (v t)) * B2R (Prim2B (x t))) (seq 0 m))))
+  <= ((1 + bpow radix2 (-53)) ^ (m + 3) - 1)
+     * (Rabs (B2R (Prim2B (x i)))
+        + Rabs (B2R (Prim2B tau)) * Rabs (B2R (Prim2B (v i)))
+          * Rsum (map (fun t => Rabs (B2R (Prim2B (v t)) * B2R (Prim2B (x t)))) (seq 0 m))).
+Print Assumptions c14_reflector_apply_float_error.
+
+(* the loops of the model compute that expression: left application, entry (k+1+i, c) *)
+Theorem c14_left_apply_entry : forall (n k m : nat) (tau : PrimFloat.float) (v : vec PrimFloat.float)
+    (h : mat PrimFloat.float) (i c : nat),
+  (k <= c < n)%nat -> (i < m)%nat ->
+  @hh_left PrimFloat.float FNum n k m tau v h (k + 1 + i)%nat c
+  = refl_upd tau v (fun t => h (k + 1 + t)%nat c) m i.
+Proof. exact Proofs.HessenFloat.hh_left_entry. Qed.
+Check c14_left_apply_entry : forall (n k m : nat) (tau : PrimFloat.float) (v : vec PrimFloat.float)
+    (h : mat PrimFloat.float) (i c : nat),
+  (k <= c < n)%nat -> (i < m)%nat ->
+  @hh_left PrimFloat.float FNum n k m tau v h (k + 1 + i)%nat c
+  = refl_upd tau v (fun t => h (k + 1 + t)%nat c) m i.
+Print Assumptions c14_left_apply_entry.
+
+(* right application (to h, and to q), entry (r, k+1+i) *)
+Theorem c14_right_apply_entry : forall (n k m : nat) (tau : PrimFloat.float) (v : vec PrimFloat.float)
+    (a : mat PrimFloat.float) (r i : nat),
+  (r < n)%nat -> (i < m)%nat ->
+  @hh_right PrimFloat.float FNum n k m tau v a r (k + 1 + i)%nat
+  = refl_upd tau v (fun t => a r (k + 1 + t)%nat) m i.
+Proof. exact Proofs.HessenFloat.hh_right_entry. Qed.
+Check c14_right_apply_entry : forall (n k m : nat) (tau : PrimFloat.float) (v : vec PrimFloat.float)
+    (a : mat PrimFloat.float) (r i : nat),
+  (r < n)%nat -> (i < m)%nat ->
+  @hh_right PrimFloat.float FNum n k m tau v a r (k + 1 + i)%nat
+  = refl_upd tau v (fun t => a r (k + 1 + t)%nat) m i.
+Print Assumptions c14_right_apply_entry.
+
+(* the two combined, left application *)
+Theorem c14_left_apply_float_error : forall (n k m : nat) (tau : PrimFloat.float) (v : vec PrimFloat.float)
+    (h : mat PrimFloat.float) (i c : nat),
+  (k <= c < n)%nat -> (i < m)%nat ->
+  let x := fun t => h (k + 1 + t)%nat c in
+  let y := @hh_left PrimFloat.float FNum n k m tau v h (k + 1 + i)%nat c in
+  (forall t, (t < m)%nat -> okmul (v t) (x t)) ->
+  (forall t, (t <= m)%nat -> is_finite (Prim2B (facc v x t)) = true) ->
+  okmul tau (v i) ->
+  okmul (PrimFloat.mul tau (v i)) (facc v x m) ->
+  is_finite (Prim2B (x i)) = true ->
+  is_finite (Prim2B y) = true ->
+  Rabs (B2R (Prim2B y)
+        - (B2R (Prim2B (x i))
+           - B2R (Prim2B tau) * B2R (Prim2B (v i))
+             * Rsum (map (fun t => B2R (Prim2B (v t)) * B2R (Prim2B (x t))) (seq 0 m))))
+  <= ((1 + bpow radix2 (-53)) ^ (m + 3) - 1)
+     * (Rabs (B2R (Prim2B (x i)))
+        + Rabs (B2R (Prim2B tau)) * Rabs (B2R (Prim2B (v i)))
+          * Rsum (map (fun t => Rabs (B2R (Prim2B (v t)) * B2R (Prim2B (x t)))) (seq 0 m))).
+Proof. exact Proofs.HessenFloat.hh_left_float_error. Qed.
+Check c14_left_apply_float_error : forall (n k m : nat) (tau : PrimFloat.float) (v : vec PrimFloat.float)
+    (h : mat PrimFloat.float) (i c : nat),
+  (k <= c < n)%nat -> (i < m)%nat ->
+  let x := fun t => h (k + 1 + t)%nat c in
+  let y := @hh_left PrimFloat.float FNum n k m tau v h (k + 1 + i)%nat c in
+  (forall t, (t < m)%nat -> okmul (v t) (x t)) ->
+  (forall t, (t <= m)%nat -> is_finite (Prim2B (facc v x t)) = true) ->
+  okmul tau (v i) ->
+  okmul (PrimFloat.mul tau (v i)) (facc v x m) ->
+  is_finite (Prim2B (x i)) = true ->
+  is_finite (Prim2B y) = true ->
+  Rabs (B2R (Prim2B y)
+        - (B2R (Prim2B (x i))
+           - B2R (Prim2B tau) * B2R (Prim2B (v i))
+             * Rsum (map (fun t => B2R (Prim2B (v t)) * B2R (Prim2B (x t))) (seq 0 m))))
+  <= ((1 + bpow radix2 (-53)) ^ (m + 3) - 1)
+     * (Rabs (B2R (Prim2B (x i)))
+        + Rabs (B2R (Prim2B tau)) * Rabs (B2R (Prim2B (v i)))
+          * Rsum (map (fun t => Rabs (B2R (Prim2B (v t)) * B2R (Prim2B (x t)))) (seq 0 m))).
+Print Assumptions c14_left_apply_float_error.
+
+(* right application (h := h1 for the similarity, a := q for the accumulation of Q) *)
+Theorem c14_right_apply_float_error : forall (n k m : nat) (tau : PrimFloat.float) (v : vec PrimFloat.float)
+    (a : mat PrimFloat.float) (r i : nat),
+  (r < n)%nat -> (i < m)%nat ->
+  let x := fun t => a r (k + 1 + t)%nat in
+  let y := @hh_right PrimFloat.float FNum n k m tau v a r (k + 1 + i)%nat in
+  (forall t, (t < m)%nat -> okmul (v t) (x t)) ->
+  (forall t, (t <= m)%nat -> is_finite (Prim2B (facc v x t)) = true) ->
+  okmul tau (v i) ->
+  okmul (PrimFloat.mul tau (v i)) (facc v x m) ->
+  is_finite (Prim2B (x i)) = true ->
+  is_finite (Prim2B y) = true ->
+  Rabs (B2R (Prim2B y)
+        - (B2R (Prim2B (x i))
+           - B2R (Prim2B tau) * B2R (Prim2B (v i))
+             * Rsum (map (fun t => B2R (Prim2B (v t)) * B2R (Prim2B (x t))) (seq 0 m))))
+  <= ((1 + bpow radix2 (-53)) ^ (m + 3) - 1)
+     * (Rabs (B2R (Prim2B (x i)))
+        + Rabs (B2R (Prim2B tau)) * Rabs (B2R (Prim2B (v i)))
+          * Rsum (map (fun t => Rabs (B2R (Prim2B (v t)) * B2R (Prim2B (x t)))) (seq 0 m))).
+Proof. exact Proofs.HessenFloat.hh_right_float_error. Qed.
+Check c14_right_apply_float_error : forall (n k m : nat) (tau : PrimFloat.float) (v : vec PrimFloat.float)
+    (a : mat PrimFloat.float) (r i : nat),
+  (r < n)%nat -> (i < m)%nat ->
+  let x := fun t => a r (k + 1 + t)%nat in
+  let y := @hh_right PrimFloat.float FNum n k m tau v a r (k + 1 + i)%nat in
+  (forall t, (t < m)%nat -> okmul (v t) (x t)) ->
+  (forall t, (t <= m)%nat -> is_finite (Prim2B (facc v x t)) = true) ->
+  okmul tau (v i) ->
+  okmul (PrimFloat.mul tau (v i)) (facc v x m) ->
+  is_finite (Prim2B (x i)) = true ->
+  is_finite (Prim2B y) = true ->
+  Rabs (B2R (Prim2B y)
+        - (B2R (Prim2B (x i))
+           - B2R (Prim2B tau) * B2R (Prim2B (v i))
+             * Rsum (map (fun t => B2R (Prim2B (v t)) * B2R (Prim2B (x t))) (seq 0 m))))
+  <= ((1 + bpow radix2 (-53)) ^ (m + 3) - 1)
+     * (Rabs (B2R (Prim2B (x i)))
+        + Rabs (B2R (Prim2B tau)) * Rabs (B2R (Prim2B (v i)))
+          * Rsum (map (fun t => Rabs (B2R (Prim2B (v t)) * B2R (Prim2B (x t)))) (seq 0 m))).
+Print Assumptions c14_right_apply_float_error.
+
+(* non-vacuity, by computation: m = 3, v = (1, 0.5, -0.25), tau = 1.5, x = (0.1, 3, -2) (nearest binary64
+   values) meet every hypothesis of c14_reflector_apply_float_error, for every i < 3 *)
+Example c14_reflector_apply_float_nonvacuous : forall i, (i < 3)%nat ->
+  (forall t, (t < 3)%nat -> okmul (vec_of_list [0x1p+0; 0x1p-1; -0x1p-2]%float t)
+                                  (vec_of_list [0x1.999999999999ap-4; 0x1.8p+1; -0x1p+1]%float t)) /\
+  (forall t, (t <= 3)%nat -> is_finite (Prim2B (facc (vec_of_list [0x1p+0; 0x1p-1; -0x1p-2]%float)
+                                  (vec_of_list [0x1.999999999999ap-4; 0x1.8p+1; -0x1p+1]%float) t)) = true) /\
+  okmul 0x1.8p+0%float (vec_of_list [0x1p+0; 0x1p-1; -0x1p-2]%float i) /\
+  okmul (PrimFloat.mul 0x1.8p+0%float (vec_of_list [0x1p+0; 0x1p-1; -0x1p-2]%float i))
+        (facc (vec_of_list [0x1p+0; 0x1p-1; -0x1p-2]%float)
+              (vec_of_list [0x1.999999999999ap-4; 0x1.8p+1; -0x1p+1]%float) 3) /\
+  is_finite (Prim2B (vec_of_list [0x1.999999999999ap-4; 0x1.8p+1; -0x1p+1]%float i)) = true /\
+  is_finite (Prim2B (refl_upd 0x1.8p+0%float (vec_of_list [0x1p+0; 0x1p-1; -0x1p-2]%float)
+                              (vec_of_list [0x1.999999999999ap-4; 0x1.8p+1; -0x1p+1]%float) 3 i)) = true.
+Proof. exact Proofs.HessenFloat.ex_reflector_hyps. Qed.
